@@ -13,7 +13,7 @@ Import ListNotations.
 Open Scope Z_scope.
 
 Definition fcode (f : fkind) : Z :=
-  match f with FBin => 0 | FCbin => 1 | FTmp => 2 | FCh => 3 | FMeta => 4 end.
+  match f with FBin => 0 | FCbin => 1 | FTmp => 2 | FCh => 3 | FMeta => 4 | FChTmp => 5 end.
 Definition ecode (e : etype) : Z := match e with Ap => 0 | Lf => 1 end.
 Definition owner_code (o : owner) : Z :=
   match o with
@@ -38,10 +38,11 @@ Definition enc_step (s : step) : Z :=
   | SCompBegin o => 800000 + owner_code o
   | SCompEnd o => 900000 + owner_code o
   | SRename o => 1000000 + owner_code o
+  | SRenameCh o => 1200000 + owner_code o
   | SDeleteOrig f => 1100000 + fcode f
   end.
 
-Definition fkinds : list fkind := [FBin; FCbin; FTmp; FCh; FMeta].
+Definition fkinds : list fkind := [FBin; FCbin; FTmp; FCh; FMeta; FChTmp].
 Definition universe (n : nat) : list path :=
   map (PFile Orig) fkinds ++ map (PFile Lf21) fkinds
   ++ flat_map (fun k => PDir k :: map (PFile (Shank k Ap)) fkinds
